@@ -65,6 +65,13 @@ func (bucket *Bucket) _closeSqliteDB() {
 	for _, c := range bucket.collections {
 		c.close()
 	}
+	// The feed map is shared by all handles of the bucket: stop the feeds started through other handles too.
+	for name, feeds := range bucket.collectionFeeds {
+		for _, feed := range feeds {
+			feed.close()
+		}
+		delete(bucket.collectionFeeds, name)
+	}
 	if bucket.sqliteDB != nil {
 		bucket.sqliteDB.Close()
 		bucket.collections = nil
